@@ -99,13 +99,13 @@ func main() {
 			{"points-full(2,4)x7", 7, 2, 4, nil, 200, nil, 6},
 			{"points-full(2,4)x6+dup", 6, 2, 4, nil, 200, []int{0}, 6},
 			{"points-full(2,5)x8", 8, 2, 5, nil, 200, nil, 6},
-			{"spread-full(2,4)x7", 7, 2, 4, nil, 60, []int{0}, 1},
+			{"spread-full(2,4)x7", 7, 2, 4, nil, 22, []int{0}, 1},
 			{"seeds(2,4)x13", 13, 2, 4, seedOrders(13), 4, nil, 0},
 			{"spread-seeds(2,4)x13", 13, 2, 4, seedOrders(13), 4, nil, 1},
 			{"seeds(3,6)x16", 16, 3, 6, seedOrders(16), 3, nil, 0},
 			{"full(3,6)x8", 8, 3, 6, nil, 12, []int{0}, 0},
-			{"full(4,8)x9", 9, 4, 8, nil, 11, []int{0}, 0},
-			{"full(2,5)x8", 8, 2, 5, nil, 80, nil, 0},
+			{"full(4,8)x9", 9, 4, 8, nil, 7, []int{0}, 0},
+			{"full(2,5)x8", 8, 2, 5, nil, 16, nil, 0},
 		}
 	}
 	if r.NViolationSigs() == 0 && !r.Expired() {
